@@ -52,6 +52,8 @@ async fn run(mut sim: Sim, _seed: u64) -> Result<Value, String> {
     }
     // known-peer tables
     let dialers = 1 + sim.rng.gen_range(0..2);
+    // (dialer, peer) pairs whose entry is High affinity with an address that does not answer somewhere
+    let mut high_dead: Vec<(usize, usize)> = Vec::new();
     for a in 0..dialers {
         for b in 0..n {
             if sim.rng.gen_bool(0.15) {
@@ -72,6 +74,9 @@ async fn run(mut sim: Sim, _seed: u64) -> Result<Value, String> {
                     addrs.push(dead_addr(&mut sim).into());
                 }
             }
+            if matches!(aff, PeerAffinity::High) && a != b && addrs.iter().any(|x| format!("{x}") != sim.addr(b).to_string()) {
+                high_dead.push((a, b));
+            }
             // b == a: the node's own entry must never be dialed
             sim.known_insert(
                 a,
@@ -88,9 +93,16 @@ async fn run(mut sim: Sim, _seed: u64) -> Result<Value, String> {
     for _ in 0..steps {
         let ms = [100u64, 700, 3_000, 9_000, 30_000, 120_000][sim.rng.gen_range(0..6)];
         settle(&mut sim, ms).await;
-        let a = sim.rng.gen_range(0..dialers);
-        let b = sim.rng.gen_range(0..n);
-        match sim.rng.gen_range(0..12) {
+        let mut a = sim.rng.gen_range(0..dialers);
+        let mut b = sim.rng.gen_range(0..n);
+        let mut op = sim.rng.gen_range(0..14);
+        if op >= 11 {
+            op = 11;
+            if !high_dead.is_empty() {
+                (a, b) = high_dead[sim.rng.gen_range(0..high_dead.len())];
+            }
+        }
+        match op {
             0..=2 => {
                 sim.run.fabric.partition(sim.addr(a), sim.addr(b));
                 sim.run.obs(-1, "obs.fault", json!({"what": "partition", "a": a, "b": b}));
@@ -176,6 +188,19 @@ async fn run(mut sim: Sim, _seed: u64) -> Result<Value, String> {
                         run.obs(b as i64, sim::connect_event(err.as_deref()), json!({"ok": ok, "peer": peer, "err": err}));
                     });
                 }
+                settle(&mut sim, 30).await;
+            }
+            11 if sim.nodes[a].net.is_some() && sim.nodes[b].net.is_some() && a != b => {
+                // the peer comes in by itself right after a connectivity check (a background dial to it
+                // may just have started towards an address that does not answer), stays over the next
+                // check - which finds it connected and may drain that dial's failure - and leaves again:
+                // the failure still counts, the back-off still runs from when it was noticed
+                let now = sim.run.now_ms();
+                let next_tick = (now / interval + 1) * interval;
+                sim.sleep_ms(next_tick - now + 20).await;
+                let _ = sim.connect(b, sim.addr(a), Some(sim.peer_id(a))).await;
+                settle(&mut sim, cto + interval + 60).await;
+                sim.disconnect(b, sim.peer_id(a));
                 settle(&mut sim, 30).await;
             }
             _ => {
